@@ -84,6 +84,10 @@ EXTRA = {
     # the parameters instantiated with the real transliterator / dictionary look-up / encoder (provisos discharged to the data files)
     "C03": [REAL], "C17": [REAL], "C18": [REAL, SORT], "C19": [REAL],
     # the fixed-method dictionary pattern ^clean[class]{0,n}$: the model's direct characterisation is its language
+    # vowels typed with their SIGN keys under the old vowel-sign order (exact conditions, witnesses for the boundary cases)
+    "C14": [(os.path.join("Props", "C14Signs.lean"), "C14Signs", "RitiModel.Props.C14Signs")],
+    # when the caller's selection byte can fall outside the list: only when the key changes the word part (the colon) or an emoticon is involved
+    "C02": [(os.path.join("Props", "C02Selection.lean"), "C02Selection", "RitiModel.Props.C02Selection")],
     "C15": [(os.path.join("Props", "FixedRegex.lean"), "FixedRegex", "RitiModel.Props.FixedRegex"), EDIT, SORT],
     # the JSON fragment of the per-user files (reader, writer, UTF-8 layer, crash points of the save)
     "C09": [(os.path.join("Props", "Json.lean"), "Json", "RitiModel.Props.Json")],
